@@ -39,6 +39,11 @@ CLAIMED = {
             "An exhaustive skeleton family (0-2 Aspects per join point, 0-2 calls inside an Aspect, 0-2 body calls, nested join points) plus random deeper streams are fed through the tracers' EVMLogger+AspectLogger methods; no panic, every frame and Aspect execution exactly once under its issuer with its own gasUsed/output/error; flat: unique prefix-closed trace addresses, children numbered 0..k-1, subtraces = emitted children.",
             "The expected tree comes from models/calltrace applied to the same stream; documented design filters (precompile pruning, onlyTopCall) are modelled.",
             "DESIGN.md §3 C19"),
+    "C09": ("exploration",
+            "reference-model monitor: recorded journal bytes vs an independent Solidity-layout decoder applied to the same storage (offline for single-instruction programs, online at the journal step for overwrite/journal sequences)",
+            "The complete (offset,width) grid [0,33]x[0,33] plus boundary values up to 2^256-1 over 6 storage words, strings of every length 0..100 and 127/128/255/256/1000/4096 in 5 content classes at 9 slot positions, all invalid length encodings, and random SSTORE/journal sequences are executed on the real VM; recorded bytes (by name and by slot) must equal the decoder's; operands outside the decoder's domain must fail the frame and record nothing.",
+            "models/sollayout is the trusted decoder; width 0 only asserted not to crash; string lengths above 4096 left to C20.",
+            "DESIGN.md §3 C09"),
 }
 
 # Properties not (yet) claimed. Reason must be current.
